@@ -12,6 +12,7 @@
     css_comments_dotall css_expression_classes_cover css_decode_fixed css_no_expression
     css_urls_safe css_scheme_punct_rejected
     attr_value_roundtrip uri_attrs_scheme_serialised default_config_script_free
+    html_reparse_safe_partial xhtml_reparse_safe_partial default_config_markup_ok css_pass_order_matters
 -/
 import Genshi.Lemmas.SanNest
 import Genshi.Lemmas.SanTree
@@ -19,6 +20,8 @@ import Genshi.Lemmas.SanForest
 import Genshi.Lemmas.SanUri
 import Genshi.Lemmas.SanCssUrl
 import Genshi.Lemmas.SanRoundtrip
+import Genshi.Lemmas.SanReparse
+import Genshi.Props.C08
 namespace Genshi.Props.C06
 open Genshi Genshi.San Genshi.San.Spec
 
@@ -399,6 +402,107 @@ theorem default_config_script_free :
         a ∈ Cfg.default.safeAttrs → a ∈ Cfg.default.uriAttrs) ∧
     styleWord ∉ Cfg.default.uriAttrs ∧ CssNamesPlain Cfg.default := by
   unfold CssNamesPlain
+  decide +kernel
+
+/-! ## After serialisation (markup level): the re-parse clause
+
+  "The same guarantees hold for the stream obtained by serialising that output as HTML or XHTML
+  and parsing it again": the sanitized forest is rendered by the serializer model of work package
+  `out` (`Genshi.Output.render`, tied to genshi's serializers in C08/C09) and read back by the
+  spec-side tokenizer `Genshi.Reader.tokens` (which stands for html.parser / expat in C08 and is
+  compared with them on every run there).  Every token read back carries the guarantees
+  (`TokSafe`): start and end tags with safe names, only safe attribute names, URI attribute values
+  with a safe scheme, style values that decode to themselves and hold neither `expression(` nor an
+  unsafe `url(`, and no comment, processing instruction or DOCTYPE at all.
+
+  `_partial`: the hypotheses are those of C08's tree round trips — `strip_whitespace=False`, no
+  doctype option, input leaves are plain (non-Markup) text or comments (`plainForest`; PIs, DOCTYPE,
+  CDATA and namespace events are not covered), and the names of the configuration can be written as
+  markup (`CfgMarkupOk`, true of the default sets: `default_config_markup_ok`); for XHTML
+  additionally no LF/TAB/CR in the emitted attribute values (finding C08-attr-ws). -/
+
+theorem html_reparse_safe_partial {cfg : Cfg} (hm : CfgMarkupOk cfg) (hcss : CssNamesPlain cfg)
+    (cache dropd : Bool) (ns : List Node) (hok : okList ns = true) (hpl : plainForest ns = true) :
+    ∃ p toks, sanitize cfg (flattenList ns) = .ok (flattenList p) ∧
+      (Genshi.Output.render .html { strip := false, cache := cache, doctype := none, dropXmlDecl := dropd }
+          (flattenList p)).bind (Genshi.Reader.tokens false) = some toks ∧
+      ∀ t ∈ toks, TokSafe cfg t := by
+  obtain ⟨p, hp⟩ : ∃ p, pruneList cfg ns = .ok p := by
+    have h1 := keep_list cfg ns [] hok
+    obtain ⟨o, ho⟩ := sanitizeFrom_ok cfg St.init (flattenList ns ++ [])
+    cases hp : pruneList cfg ns with
+    | ok p => exact ⟨p, rfl⟩
+    | error e => rw [h1, hp] at ho; cases ho
+  have hgood := pruneList_good cfg ns p hpl hp
+  obtain ⟨h1, h2, h3⟩ := forest_in_html_domain hm p hgood
+  refine ⟨p, _, ?_, Genshi.Props.C08.html_roundtrip_tree_partial cache dropd p h1 h2 h3, ?_⟩
+  · have := keep_list cfg ns [] hok
+    simp only [List.append_nil] at this
+    unfold sanitize
+    rw [this, hp]
+    simp [sanitizeFrom]
+  · exact assemble_safe (forestPieces_safe css_comments_dotall hm hcss p hgood)
+
+theorem xhtml_reparse_safe_partial {cfg : Cfg} (hm : CfgMarkupOk cfg) (hcss : CssNamesPlain cfg)
+    (cache : Bool) (ns : List Node) (hok : okList ns = true) (hpl : plainForest ns = true) :
+    ∃ p, sanitize cfg (flattenList ns) = .ok (flattenList p) ∧
+      (forestAttrVals p = true →
+        ∃ toks, (Genshi.Output.render .xhtml { strip := false, cache := cache, doctype := none, dropXmlDecl := true }
+            (flattenList p)).bind (Genshi.Reader.tokens true) = some toks ∧
+          ∀ t ∈ toks, TokSafe cfg t) := by
+  obtain ⟨p, hp⟩ : ∃ p, pruneList cfg ns = .ok p := by
+    have h1 := keep_list cfg ns [] hok
+    obtain ⟨o, ho⟩ := sanitizeFrom_ok cfg St.init (flattenList ns ++ [])
+    cases hp : pruneList cfg ns with
+    | ok p => exact ⟨p, rfl⟩
+    | error e => rw [h1, hp] at ho; cases ho
+  have hgood := pruneList_good cfg ns p hpl hp
+  obtain ⟨h1, h2, _⟩ := forest_in_html_domain hm p hgood
+  refine ⟨p, ?_, fun hv => ⟨_, Genshi.Props.C08.xhtml_roundtrip_tree_partial cache p h1 h2
+    (forest_in_xhtml_domain hm p hgood hv), ?_⟩⟩
+  · have := keep_list cfg ns [] hok
+    simp only [List.append_nil] at this
+    unfold sanitize
+    rw [this, hp]
+    simp [sanitizeFrom]
+  · exact assemble_safe (forestPiecesX_safe css_comments_dotall hm hcss p hgood)
+
+/-- The names of the default configuration can be written as markup (re-checked against the
+    generated sets): hypothesis `CfgMarkupOk` of the two theorems above. -/
+theorem default_config_markup_ok : CfgMarkupOk Cfg.default ∧ CfgMarkupOk styleCfg := by
+  constructor <;> constructor <;> decide +kernel
+
+-- non-vacuity: a nested payload goes through sanitizer, HTML serializer and reader
+example : (do
+    let o ← (sanitize styleCfg [.start divTag [(styleName, punctCss), (hrefName, jsUri)], .start scriptTag [],
+      .text ['x'] false, .end_ scriptTag, .text ['a', '<', 'b'] false, .comment ['c'], .end_ divTag]).toOption
+    let txt ← Genshi.Output.render .html { strip := false, cache := true, doctype := none, dropXmlDecl := true } o
+    Genshi.Reader.tokens false txt) =
+    some [.start ['d', 'i', 'v'] [] false, .text ['a', '<', 'b'], .end_ ['d', 'i', 'v']] := by decide +kernel
+
+/-! ## The order of the two CSS passes
+
+  `sanitize_css` decodes escapes first and removes comments afterwards.  `css_decode_fixed`
+  depends on that order: with the passes swapped (comments first), a comment whose delimiters are
+  themselves escaped (`\2f\2a … \2a\2f`) only appears after decoding, survives, and the emitted
+  text is no fixed point of the browser-side decoder — it hides `expression(`. -/
+
+/-- `sanitize_css` with its two normalisation passes in the wrong order -/
+def sanitizeCssSwapped (cfg : Cfg) (text : Str) : Except Err (List Str) := do
+  let t ← unescapeCss (stripCssComments (normalizeNewlines text))
+  pure ((splitOn ';' t).filterMap (cssDecl cfg))
+
+def orderPayload : Str :=
+  ['t', 'o', 'p', ':', 'e', 'x', 'p', '\\', '2', 'f', '\\', '2', 'a', 'x', '\\', '2', 'a', '\\', '2', 'f', 'r', 'e', 's', 's',
+   'i', 'o', 'n', '(', '1', ')']
+
+theorem css_pass_order_matters :
+    -- the code's order: recognised and dropped
+    sanitizeCss styleCfg orderPayload = .ok [] ∧
+    -- swapped: emitted, not a fixed point of the browser's decoding, which reveals `expression(`
+    (∃ d, sanitizeCssSwapped styleCfg orderPayload = .ok [d] ∧ cssDecode d ≠ d ∧
+      hasExpression (cssDecode d) = true) := by
+  refine ⟨by decide +kernel, ['t', 'o', 'p', ':', 'e', 'x', 'p', '/', '*', 'x', '*', '/', 'r', 'e', 's', 's', 'i', 'o', 'n', '(', '1', ')'], ?_⟩
   decide +kernel
 
 end Genshi.Props.C06
